@@ -4,6 +4,7 @@ import importlib
 import json
 import multiprocessing as mp
 import os
+import re
 import subprocess
 import sys
 import time
@@ -11,6 +12,9 @@ import traceback
 from fractions import Fraction
 
 VERIF = os.path.dirname(os.path.dirname(os.path.abspath(__file__)))
+# tools/seed_run_par.sh only: outputs elsewhere, library from a scratch worktree (registered commands never set these)
+OUT = os.environ.get("SYMX_OUT") or VERIF
+REPO_SRC = os.environ.get("SYMX_REPO_SRC")
 EXIT_OK, EXIT_VIOLATION, EXIT_HARNESS = 0, 1, 2
 
 
@@ -196,6 +200,9 @@ def replay_file(path):
     if hasattr(mod, "install_conc"):
         mod.install_conc()
     sx = api.Sx("conc", model=rp["model"])
+    if rp.get("sample_seed") is not None:
+        import random
+        sx.rng = random.Random(rp["sample_seed"]) if rp["sample_seed"] else None     # seed 0: the mid-points of all ranges
     api.CUR = sx
     shims.ChoiceSet._counter = 0
     res = None
@@ -209,8 +216,10 @@ def replay_file(path):
     print(f"replay: property={rp['property']} job={rp['job']} outcome={res!r} obligations_checked={sx.checked}")
     for k, v in sx.notes.items():
         print(f"  note {k} = {v}")
-    hit = [f for f in sx.failed if f["key"] == rp["key"]]
-    other = [f for f in sx.failed if f["key"] != rp["key"]]
+    if rp.get("sample_seed") is not None:
+        print("  sampled inputs: " + json.dumps({k: (v if isinstance(v, (int, float, bool)) else str(v)) for k, v in sx.model.items()}))
+    hit = [f for f in sx.failed if f["key"] == rp["key"] or rp["key"] == "*"]
+    other = [f for f in sx.failed if f["key"] != rp["key"] and rp["key"] != "*"]
     for f in sx.failed:
         print(f"  FAILED obligation: {f['label']}  [key {f['key']}] {f.get('info') or ''}")
     if hit:
@@ -223,10 +232,69 @@ def replay_file(path):
     return 3
 
 
+def _ground_twins(prop, modname, meta, jobs, seed, nproc, seen_keys):
+    """Ground twin of every job: the same harness function on the real, unshimmed library in IEEE doubles, inputs at the
+    mid-points of their ranges and at seeded random points. Its purpose is validation - the harness and its oracle must agree
+    with the real arithmetic wherever the solver said 'holds' - and it keeps a defect that makes the symbolic run intractable
+    (truncated, inconclusive) from going unnoticed. A failed obligation is a concrete counterexample on the real code."""
+    from concurrent.futures import ThreadPoolExecutor
+    nsamp = int(meta.get("twin_samples", 2))
+    report = {"runs": 0, "outside_precondition": 0, "errors": [], "failed_keys": {}}
+    if nsamp <= 0 or os.environ.get("SYMX_NO_TWIN"):
+        return report
+    d = os.path.join(OUT, "replays", prop)
+    tasks = []
+    for j in jobs:
+        if j.get("twin") is False:
+            continue
+        for k in range(nsamp):
+            rp = {"property": prop, "harness": modname, "job": j["name"], "fn": j["fn"], "params": j.get("params", {}),
+                  "model": {}, "label": "ground twin", "key": "*", "sample_seed": 0 if k == 0 else 1000 * seed + k}
+            h = hashlib.sha1(json.dumps(rp, sort_keys=True).encode()).hexdigest()[:12]
+            path = os.path.join(d, f"twin-{h}.json")
+            with open(path, "w") as fh:
+                json.dump(rp, fh, indent=1, sort_keys=True)
+            tasks.append((path, rp))
+
+    def one(t):
+        try:
+            return t, _run_replay(t[0])
+        except subprocess.TimeoutExpired:
+            return t, (124, "timeout")
+    with ThreadPoolExecutor(max_workers=nproc) as ex:
+        for (path, rp), (code, outp) in ex.map(one, tasks):
+            report["runs"] += 1
+            keep = False
+            if code == 0:
+                for label, key in re.findall(r"FAILED obligation: (.*?)  \[key ([^\]]+)\]", outp):
+                    report["failed_keys"][key] = report["failed_keys"].get(key, 0) + 1
+                    if key not in seen_keys:
+                        # a concrete violation the symbolic run did not report: a replay file of its own
+                        rp2 = dict(rp, key=key, label=label)
+                        m = re.search(r"sampled inputs: (\{.*\})", outp)
+                        if m:
+                            rp2["model"] = json.loads(m.group(1))
+                            rp2.pop("sample_seed", None)
+                        p2 = os.path.join(d, "twin-" + hashlib.sha1((key + path).encode()).hexdigest()[:12] + ".json")
+                        with open(p2, "w") as fh:
+                            json.dump(rp2, fh, indent=1, sort_keys=True)
+                        seen_keys.setdefault(key, []).append(({"job": rp["job"], "fn": rp["fn"], "params": rp["params"]},
+                                                               {"key": key, "label": label, "model": rp2["model"], "info": None,
+                                                                "decisions": [], "params": rp["params"], "smt": None}))
+                        keep = True
+            elif code == 3 and "REPLAY-MISMATCH" in outp:
+                report["outside_precondition"] += 1
+            elif code != 3:
+                report["errors"].append({"job": rp["job"], "sample_seed": rp["sample_seed"], "exit": code, "tail": outp[-400:]})
+            if not keep and os.path.exists(path):
+                os.unlink(path)
+    return report
+
+
 def _run_replay(path):
     py = os.path.join(VERIF, ".venv", "bin", "python")
     env = dict(os.environ)
-    env["PYTHONPATH"] = VERIF
+    env["PYTHONPATH"] = (REPO_SRC + os.pathsep if REPO_SRC else "") + VERIF
     p = subprocess.run([py, "-m", "symx.main", "--replay", path], cwd=VERIF, env=env, capture_output=True, text=True,
                        timeout=900)
     return p.returncode, p.stdout + p.stderr
@@ -262,7 +330,17 @@ def run_check(prop, tier, seed, nproc=None):
         return EXIT_HARNESS
 
     jobs = mod.jobs(tier, seed)
-    nproc = nproc or min(16, os.cpu_count() or 4)
+    nproc = nproc or int(os.environ.get("SYMX_NPROC") or 0) or min(16, os.cpu_count() or 4)
+    # wall-time sizing of the thorough tier: the per-job budgets are scaled so that the whole check fits the wall budget
+    # (jobs that run out of their budget are reported as truncated: the bound of the claim, not a failure)
+    wall_cap = float(os.environ.get("SYMX_WALL_S") or 0) or (2700.0 if tier == "thorough" else 0.0)
+    budget_scale = 1.0
+    if wall_cap:
+        total = sum(j.get("budget_s", 600) for j in jobs)
+        if total / nproc > wall_cap:
+            budget_scale = wall_cap * nproc / total
+            for j in jobs:
+                j["budget_s"] = max(20.0, j.get("budget_s", 600) * budget_scale)
     results = []
     ctx = mp.get_context("fork")
     with ctx.Pool(nproc, maxtasksperchild=1) as pool:
@@ -304,7 +382,8 @@ def run_check(prop, tier, seed, nproc=None):
         for v in r["violated"]:
             seen_keys.setdefault(v["key"], []).append((r, v))
     new_violations, known_hits, harness_errors, replays = [], [], [], []
-    os.makedirs(os.path.join(VERIF, "replays", prop), exist_ok=True)
+    os.makedirs(os.path.join(OUT, "replays", prop), exist_ok=True)
+    twin = _ground_twins(prop, modname, meta, jobs, seed, nproc, seen_keys)
     for key, lst in sorted(seen_keys.items()):
         reproduced = None
         tried = 0
@@ -314,7 +393,7 @@ def run_check(prop, tier, seed, nproc=None):
                   "model": v["model"], "label": v["label"], "key": key, "info": v.get("info"),
                   "decisions": v["decisions"]}
             h = hashlib.sha1(json.dumps(rp, sort_keys=True).encode()).hexdigest()[:12]
-            path = os.path.join(VERIF, "replays", prop, f"{h}.json")
+            path = os.path.join(OUT, "replays", prop, f"{h}.json")
             with open(path, "w") as fh:
                 json.dump(rp, fh, indent=1, sort_keys=True)
             code, outp = _run_replay(path)
@@ -370,13 +449,18 @@ def run_check(prop, tier, seed, nproc=None):
             "schedule_picks": agg["sched_picks"],
             "functions_encoded": sorted(functions),
             "stubs": stubs,
-            "bounds": meta.get("bounds", {}),
+            "bounds": {**meta.get("bounds", {}), "time": f"per-job budgets scaled by {budget_scale:.3f} to fit a wall budget of "
+                       f"{wall_cap:.0f} s on {nproc} processes" if budget_scale != 1.0 else "per-job budgets as listed by the harness"},
             "outside_the_claim": meta.get("outside", []),
             "solver_queries": {k: v for k, v in stats.items() if k != "solver_time"},
             "solver_time_s": round(stats.get("solver_time", 0.0), 2),
             "vacuity_witnesses": reached,
             "stub_validation": stub_report,
             "truncated_jobs": [r["job"] for r in results if r["truncated"]],
+            "ground_twin": {"what": "every job re-run on the unshimmed library in doubles at the mid-point and at seeded random "
+                            "points of the input ranges (validation of harness and oracle; not the deciding step)",
+                            "runs": twin["runs"], "outside_precondition": twin["outside_precondition"],
+                            "failed_obligation_keys": twin["failed_keys"], "errors": twin["errors"][:5]},
             "harness_counters": extra,
             "inconclusive_reasons": unmod[:10],
             "known_findings_hit": [{"key": k, "replay": os.path.relpath(p, VERIF), "occurrences": n}
@@ -390,10 +474,12 @@ def run_check(prop, tier, seed, nproc=None):
         "wall_s": round(wall, 2),
         "violations": len(new_violations),
     }
-    os.makedirs(os.path.join(VERIF, "evidence"), exist_ok=True)
-    with open(os.path.join(VERIF, "evidence", f"{prop}.json"), "w") as fh:
+    os.makedirs(os.path.join(OUT, "evidence"), exist_ok=True)
+    with open(os.path.join(OUT, "evidence", f"{prop}.json"), "w") as fh:
         json.dump(_jsonable(evidence), fh, indent=1)
 
+    import classy_blocks as _cb
+    print(f"[{prop}] library: {os.path.dirname(_cb.__file__)}")
     print(f"[{prop}] tier={tier} jobs={len(results)} paths={agg['paths']} obligations={agg['obligations']} "
           f"discharged={agg['discharged']}+{agg['syntactic']}syn inconclusive={agg['inconclusive']} "
           f"violated={n_viol} solver={stats.get('solver_time', 0):.1f}s wall={wall:.1f}s exhaustive={exhaustive}")
